@@ -353,6 +353,25 @@ def run_jobs(jobs, tmp, timeout):
   return results
 
 
+def _reproduces(pid, family, bucket, case, detail, tier, tmp):
+  """Replays `case` in a fresh process; True iff `bucket` is reported again."""
+  path = os.path.join(tmp, 'candidate-%s.json' % hashlib.sha1(
+      (family + bucket).encode()).hexdigest()[:10])
+  try:
+    with open(path, 'w') as f:
+      json.dump({'property': pid, 'family': family, 'bucket': bucket,
+                 'detail': detail, 'case': case}, f, allow_nan=True)
+    env = dict(os.environ)
+    env['PYTHONHASHSEED'] = '0'
+    p = subprocess.run(
+        [sys.executable, os.path.join(VERIF, 'check'), pid, '--tier', tier,
+         '--replay', path], env=env, cwd=VERIF, capture_output=True, text=True,
+        timeout=900)
+    return ('bucket=%s' % bucket) in p.stdout
+  except Exception:  # pylint: disable=broad-except
+    return True  # cannot tell: keep the shrunk case
+
+
 def write_replay(pid, family, bucket, case, detail, sub=''):
   d = os.path.join(VERIF, 'replays', pid, sub) if sub else os.path.join(
       VERIF, 'replays', pid)
@@ -522,7 +541,12 @@ def orchestrate(args):
     best = shrunk.get((f.name, b))
     case, detail = info['case'], info['detail']
     if best is not None and best['size'] <= info['size']:
-      case, detail = best['case'], best['detail']
+      # a shrunk case becomes the replay only if it reproduces on its own in a
+      # fresh process (it was accepted inside a long-lived worker process)
+      if _reproduces(pid, f.name, b, best['case'], best['detail'], tier, tmp):
+        case, detail = best['case'], best['detail']
+      else:
+        detail += ' [shrunk case did not reproduce standalone; unshrunk case kept]'
     path = write_replay(pid, f.name, b, case, detail)
     violations.append((f.name, b, path, detail))
 
